@@ -27,7 +27,7 @@ PROPS = {
                 "validator x received-at URL =/!= ACS; single perturbations exhaustively, 2-3-fold sampled",
     },
     "C04": {
-        "modules": ["SamlVerif.Props.C04", "SamlVerif.Props.TransSP", "SamlVerif.Props.TransParse", "SamlVerif.Props.TransArtifact", "SamlVerif.Props.PureSaml", "SamlVerif.Props.PureSamlsp"],
+        "modules": ["SamlVerif.Props.C04", "SamlVerif.Props.TransSP", "SamlVerif.Props.TransParse", "SamlVerif.Props.TransArtifact", "SamlVerif.Props.TransMiddleware", "SamlVerif.Props.PureSaml", "SamlVerif.Props.PureSamlsp"],
         "trusted_base": SP_TB,
         "assumptions": [],
         "rule": "outstanding-ID sets {empty, one, several, containing \"\", near-miss} x InResponseTo {match, other, empty, prefix, extension} at response "
@@ -147,7 +147,7 @@ PROPS["C16"] = {
 }
 
 PROPS["C17"] = {
-    "modules": ["SamlVerif.Props.C17", "SamlVerif.Props.PureSamlsp"],
+    "modules": ["SamlVerif.Props.C17", "SamlVerif.Props.TransMiddleware", "SamlVerif.Props.PureSamlsp"],
     "trusted_base": ["modelled, not verified: net/http cookie parsing and Set-Cookie semantics, the SAML response validation itself (abstracted to valid/InResponseTo here; it is C01-C04's subject), golang-jwt (see C16)",
                      "cookie names are abstracted to tracking(index) / session / other (strings.HasPrefix / TrimPrefix with the fixed prefix \"saml_\")"],
     "assumptions": ["browser jars hold at most one cookie per name (hypothesis of the completion theorems; the refusal/binding theorems hold for arbitrary cookie lists)"],
@@ -267,9 +267,10 @@ TRANS_TB = ("the Go->Lean translator (extract/trans.go: go/ast + go/types over a
             "dereference = panic, receivers non-nil, time as integers, url.URL.String() opaque, untranslated callees as arbitrary functions in Env; arguments of fmt.Errorf are not evaluated)")
 for pid, fns in {"C01": "parseResponse / parseAssertion / parseEncryptedAssertion / parseArtifactResponse / the trust configuration of validateSignature",
                  "C02": "validateAssertion / parseResponse", "C03": "validateAssertion / validateAudienceRestriction / parseResponse",
-                 "C04": "validateRequestID / validateAssertion / parseResponse", "C05": "IdpAuthnRequest.Validate (from the Destination check on) / getACSEndpoint / the endpoint selection of ServeIDPInitiated",
+                 "C04": "validateRequestID / validateAssertion / parseResponse / parseArtifactResponse / samlsp Middleware.ServeACS (the outstanding request IDs)", "C05": "IdpAuthnRequest.Validate (from the Destination check on) / getACSEndpoint / the endpoint selection of ServeIDPInitiated",
                  "C18": "validateLogoutResponse / the trust configuration of validateSignature",
                  "C08": "IdpAuthnRequest.getSPEncryptionCert (the selection of the certificate string, up to its decoding)",
-                 "C10": "xmlenc appendPadding / stripPadding", "C11": "xmlenc stripPadding"}.items():
+                 "C10": "xmlenc appendPadding / stripPadding", "C11": "xmlenc stripPadding",
+                 "C17": "samlsp Middleware.ServeACS / CreateSessionFromAssertion (as effect traces) / CookieRequestTracker.GetTrackedRequest"}.items():
     PROPS[pid]["technique"] = TRANS_TECH.format(fns=fns)
     PROPS[pid]["trusted_base"] = list(PROPS[pid].get("trusted_base", [])) + [TRANS_TB]
